@@ -2,12 +2,14 @@
 C16 — Closed and replaced connections release their resources. Property theorems only.
 What the models carry: at most one retry goroutine exists (single-flight) and a loss starts at most one recovery, so
 the number of library threads is bounded independently of the number of cycles; every exit path of a request call
-unregisters its waiter. That R/W/D goroutines actually exit is observed on cycle scenarios (goroutine profile), partial.
+unregisters its waiter. That the R/W/D goroutines of a closed connection exit — in every schedule, without ever blocking
+for ever — is proved on view ConnThreads (last section); the cycle scenarios (goroutine profile) observe the same.
 -/
 import OAP.Model.Client.SingleFlight
 import OAP.Proofs.Waiters
 import OAP.Gen.Facts
 import OAP.Model.Client.Recovery
+import OAP.Model.Client.ConnThreads
 namespace OAP.C16
 open OAP
 
@@ -58,5 +60,193 @@ theorem recovery_one_per_loss_partial (m : Nat) (acts : List Recovery.Act) (s : 
     (h : Recovery.run (Recovery.init m) acts = some s) (c : Nat) :
     (s.closedSig = false → s.spawns c ≤ 1) ∧ s.spawnsOpen c ≤ 1 ∧ s.lateAttempts = 0 :=
   Recovery.one_recovery_per_loss_partial m acts s h c
+
+/-! ### the goroutines of a closed connection exit (view ConnThreads: reader R, writer W, dispatcher D of one
+connection, any number of concurrent `Close` callers, senders, the peer) -/
+
+/-- every synchronisation-relevant operation of the two transports' conn methods, in one list -/
+def connSeqs : List String :=
+  Gen.seq_tcpConn_reading ++ Gen.seq_tcpConn_writing ++ Gen.seq_tcpConn_OnPacket ++ Gen.seq_tcpConn_Close ++
+  Gen.seq_tcpConn_addPacket ++ Gen.seq_tcpConn_Write ++ Gen.seq_tcpConn_write ++
+  Gen.seq_wsConn_reading ++ Gen.seq_wsConn_writing ++ Gen.seq_wsConn_OnPacket ++ Gen.seq_wsConn_Close ++
+  Gen.seq_wsConn_addPacket ++ Gen.seq_wsConn_Write ++ Gen.seq_wsConn_write
+
+/-- T2 for view ConnThreads. The full operation sequences the model mirrors are pinned elsewhere and not repeated:
+`C13.reader_source` (reading), `C12.writer_source` (writing), `C16.source_order` (OnPacket), `C14.source_order` (Close,
+write), `C13.source_order` (addPacket), `C12.source_order` (Write, write). Operation ↦ model step:
+
+  reading   conn.closed ↦ rTop · conn.conn.Read ↦ pc inRead, rReadData / rReadErr · conn.Close ↦ rCloseTest, rCloseOnce,
+            body · conn.readPacket ↦ pc decode, rAdd per frame, rDecoded (ws: the first two conn.Close are NextReader /
+            ReadAll errors = rReadErr)
+  writing   conn.closed ↦ wTop (tcp, loop head) / wChk (ws, after the select) · select ↦ pc sel · recv:conn.closeCh ↦
+            wSelClose · recv:conn.writeCh ↦ wSelRecv · recv:t.C ↦ wSelTick · conn.conn.Write / WriteMessage ↦ pc inWrite,
+            wWriteOk / wWriteErr · conn.Close ↦ wCloseTest, wCloseOnce, body
+  OnPacket  conn.onPacketOnce.Do, go ↦ dStart · outer select ↦ pc sel: recv:conn.closeCh ↦ dSelClose, recv:conn.packetCh, fn
+            ↦ dSelRecv, dHandled · inner select ↦ pc drain: recv:conn.packetCh, fn ↦ dDrain (take), dHandled; default ↦
+            dDrain (empty) · fn (the last but two) ↦ dFinal
+  Close     conn.closed ↦ xCloseTest · conn.closeOnce.Do ↦ xCloseOnce · close:conn.closeCh, conn.conn.Close,
+            conn.DispatchClose, return ↦ the four `body` steps
+  addPacket select, send:conn.packetCh, default ↦ rAdd (enqueue / drop)
+  Write/write  conn.closed (twice), select, send:conn.writeCh, default ↦ send
+
+Pinned here is what the theorems of this section depend on, guard by guard (each is the guard one `Variant` of the model
+removes, with a stranded goroutine as the result): `addPacket` has a `default` (a); `Close` closes the socket (b); the
+writer's (c) and the dispatcher's (d) select have a closeCh case; `write` has a `default` (senders never block); and the
+only channel ever closed by a conn method is closeCh, at one place per transport — writeCh and packetCh stay open. -/
+theorem conn_threads_source :
+    ("default" ∈ Gen.seq_tcpConn_addPacket ∧ "default" ∈ Gen.seq_wsConn_addPacket) ∧
+    ("conn.conn.Close" ∈ Gen.seq_tcpConn_Close ∧ "conn.conn.Close" ∈ Gen.seq_wsConn_Close) ∧
+    ("recv:conn.closeCh" ∈ Gen.seq_tcpConn_writing ∧ "recv:conn.closeCh" ∈ Gen.seq_wsConn_writing) ∧
+    ("recv:conn.closeCh" ∈ Gen.seq_tcpConn_OnPacket ∧ "recv:conn.closeCh" ∈ Gen.seq_wsConn_OnPacket) ∧
+    ("default" ∈ Gen.seq_tcpConn_write ∧ "default" ∈ Gen.seq_wsConn_write) ∧
+    (connSeqs.filter (fun x => x = "close:conn.closeCh") = ["close:conn.closeCh", "close:conn.closeCh"]) ∧
+    ("close:conn.writeCh" ∉ connSeqs ∧ "close:conn.packetCh" ∉ connSeqs) := by
+  decide
+
+/-- CLOSE ONCE: in every run, whoever calls `Close` — the reader on a read error, the writer on a write error, any
+number of other goroutines, any number of times, all at once — closeCh is closed at most once, the socket at most once,
+the close callbacks run at most once, the dispatcher reports the final error at most once (and is started at most
+once); the flags mean "executed once"; order: signal, socket, callbacks; a completed Close has done all three -/
+theorem conn_close_once (cfg : ConnThreads.Cfg) (acts : List ConnThreads.Act) (s : ConnThreads.St)
+    (h : ConnThreads.run cfg (ConnThreads.init cfg) acts = some s) :
+    s.sigCloses ≤ 1 ∧ s.sockCloses ≤ 1 ∧ s.closeCallbacks ≤ 1 ∧ s.finalReports ≤ 1 ∧ s.dStarts ≤ 1 ∧
+    (s.closeSig = true ↔ s.sigCloses = 1) ∧ (s.sockClosed = true ↔ s.sockCloses = 1) ∧
+    (s.sockClosed = true → s.closeSig = true) ∧ (s.closeCallbacks = 1 → s.sockClosed = true) ∧
+    (s.once = .done → s.sigCloses = 1 ∧ s.sockCloses = 1 ∧ s.closeCallbacks = 1) :=
+  ConnThreads.close_once cfg acts s h
+
+/-- PROGRESS: in every reachable state after Close (signal set, socket closed) each of R, W, D that has not exited has
+an enabled step of its own, whatever the peer does (silent, stalled, gone) and whatever the queue lengths — or it is
+inside its own nested `Close`, at the Once, where the goroutine in the body always has an enabled step -/
+theorem conn_no_block_after_close (cfg : ConnThreads.Cfg) (acts : List ConnThreads.Act) (s : ConnThreads.St)
+    (h : ConnThreads.run cfg (ConnThreads.init cfg) acts = some s) (hc : s.closeSig = true) (hk : s.sockClosed = true) :
+    (s.r ≠ .exited → (∃ a, ConnThreads.isR a = true ∧ (ConnThreads.step cfg s a).isSome = true) ∨
+        ((s.r = .close .once ∨ s.r = .close .body) ∧ (ConnThreads.step cfg s .body).isSome = true)) ∧
+    (s.w ≠ .exited → (∃ a, ConnThreads.isW a = true ∧ (ConnThreads.step cfg s a).isSome = true) ∨
+        ((s.w = .close .once ∨ s.w = .close .body) ∧ (ConnThreads.step cfg s .body).isSome = true)) ∧
+    (s.d ≠ .exited → ∃ a, ConnThreads.isD a = true ∧ (ConnThreads.step cfg s a).isSome = true) :=
+  ConnThreads.no_block_after_close cfg acts s h hc hk
+
+/-- … in particular: a reader blocked in `Read` and a writer blocked in a `Write` to a stalled peer are released by the
+local socket close; a writer / dispatcher waiting at its select on an empty queue is released by the signal;
+`addPacket` never waits for room -/
+theorem conn_blocked_calls_released (cfg : ConnThreads.Cfg) (s : ConnThreads.St) :
+    (s.r = .inRead → s.sockClosed = true → (ConnThreads.step cfg s .rReadErr).isSome = true) ∧
+    (s.w = .inWrite → s.sockClosed = true → (ConnThreads.step cfg s .wWriteErr).isSome = true) ∧
+    (s.w = .sel → s.closeSig = true → (ConnThreads.step cfg s .wSelClose).isSome = true) ∧
+    (s.d = .sel → s.closeSig = true → (ConnThreads.step cfg s .dSelClose).isSome = true) ∧
+    (∀ k b, s.r = .decode (k+1) b → (ConnThreads.step cfg s .rAdd).isSome = true) :=
+  ⟨ConnThreads.reader_in_read_unblocked cfg s, ConnThreads.writer_in_write_unblocked cfg s,
+   ConnThreads.writer_at_select_unblocked cfg s, ConnThreads.dispatcher_at_select_unblocked cfg s,
+   fun k b => ConnThreads.add_never_blocks cfg s k b⟩
+
+/-- TERMINATION, bounded: from any reachable state `s` after Close, along EVERY schedule `acts` (any interleaving with
+the peer, senders and further Close callers) ending in `s'`: (1) `mu s' + (steps of R, W, D and the Close body in acts)
+≤ mu s` — no schedule contains more than `mu s` of their steps; (2) unless R, W and D have all exited in `s'`, one of
+their steps is enabled; (3) hence a schedule that cannot be extended by a thread step, and any schedule that used up the
+budget, ends with R, W and D all exited — termination under every scheduler that does not starve a goroutine for ever -/
+theorem conn_threads_exit (cfg : ConnThreads.Cfg) (acts0 acts : List ConnThreads.Act) (s s' : ConnThreads.St)
+    (h0 : ConnThreads.run cfg (ConnThreads.init cfg) acts0 = some s) (hc : s.closeSig = true)
+    (hk : s.sockClosed = true) (h : ConnThreads.run cfg s acts = some s') :
+    ConnThreads.mu s' + ConnThreads.threadSteps acts ≤ ConnThreads.mu s ∧
+    (¬ ConnThreads.allExited s' → ∃ a, ConnThreads.isThread a = true ∧ (ConnThreads.step cfg s' a).isSome = true) ∧
+    ((∀ a, ConnThreads.isThread a = true → ConnThreads.step cfg s' a = none) → ConnThreads.allExited s') ∧
+    (ConnThreads.mu s ≤ ConnThreads.threadSteps acts → ConnThreads.allExited s') :=
+  ConnThreads.exits_after_close cfg acts0 acts s s' h0 hc hk h
+
+/-- the same for R and W alone (their steps and the Close body's — also when OnPacket was never called) and for D alone -/
+theorem conn_threads_exit_parts (cfg : ConnThreads.Cfg) (acts0 acts : List ConnThreads.Act) (s s' : ConnThreads.St)
+    (h0 : ConnThreads.run cfg (ConnThreads.init cfg) acts0 = some s) (hc : s.closeSig = true)
+    (hk : s.sockClosed = true) (h : ConnThreads.run cfg s acts = some s') :
+    (ConnThreads.muRW s' + ConnThreads.rwSteps acts ≤ ConnThreads.muRW s ∧
+      (¬ (s'.r = .exited ∧ s'.w = .exited) → ∃ a, ConnThreads.isRW a = true ∧ (ConnThreads.step cfg s' a).isSome = true) ∧
+      (ConnThreads.muRW s ≤ ConnThreads.rwSteps acts → s'.r = .exited ∧ s'.w = .exited)) ∧
+    (ConnThreads.muD s' + ConnThreads.dSteps acts ≤ ConnThreads.muD s ∧
+      (s'.d ≠ .exited → ∃ a, ConnThreads.isD a = true ∧ (ConnThreads.step cfg s' a).isSome = true) ∧
+      (ConnThreads.muD s ≤ ConnThreads.dSteps acts → s'.d = .exited)) :=
+  ConnThreads.exits_after_close_parts cfg acts0 acts s s' h0 hc hk h
+
+/-- the bound is a constant of the configuration and of the chunk the reader is still decoding — not of the history:
+`mu s ≤ 2·ReadQueueSize + 3·(frames still to hand over) + 12` -/
+theorem conn_exit_bound (cfg : ConnThreads.Cfg) (acts : List ConnThreads.Act) (s : ConnThreads.St)
+    (h : ConnThreads.run cfg (ConnThreads.init cfg) acts = some s) (hk : s.sockClosed = true) :
+    ConnThreads.mu s ≤ 2 * cfg.pcap + 3 * ConnThreads.pendR s.r + 12 :=
+  ConnThreads.mu_le cfg s (ConnThreads.inv_reach cfg acts s h) hk
+
+/-- no dead end: from the moment somebody has won the Once of `Close`, some schedule ends with R, W, D exited (the
+body of `closeOnce.Do` never waits; then the threads run out as above) -/
+theorem conn_close_leads_to_exit (cfg : ConnThreads.Cfg) (acts0 : List ConnThreads.Act) (s : ConnThreads.St)
+    (h0 : ConnThreads.run cfg (ConnThreads.init cfg) acts0 = some s) (hh : s.once ≠ .free) :
+    ∃ acts s', ConnThreads.run cfg s acts = some s' ∧ ConnThreads.allExited s' :=
+  ConnThreads.close_leads_to_exit cfg acts0 s h0 hh
+
+/-- nothing restarts: exited goroutines stay exited in every continuation -/
+theorem conn_exited_stays_exited (cfg : ConnThreads.Cfg) (acts : List ConnThreads.Act) (s s' : ConnThreads.St)
+    (h : ConnThreads.run cfg s acts = some s') :
+    (s.r = .exited → s'.r = .exited) ∧ (s.w = .exited → s'.w = .exited) ∧ (s.d = .exited → s'.d = .exited) ∧
+    (ConnThreads.allExited s → ConnThreads.allExited s') :=
+  ConnThreads.exited_stays_exited cfg acts s s' h
+
+/-- after the dispatcher has delivered the final error nothing else is delivered or reported, in every continuation
+(with the packets themselves: `C13.no_delivery_after_finish` on view DispatchClose) -/
+theorem conn_no_delivery_after_final (cfg : ConnThreads.Cfg) (acts : List ConnThreads.Act) (s s' : ConnThreads.St)
+    (hd : s.d = .exited) (h : ConnThreads.run cfg s acts = some s') :
+    s'.d = .exited ∧ s'.delivered = s.delivered ∧ s'.finalReports = s.finalReports :=
+  ConnThreads.no_delivery_after_final cfg acts s s' hd h
+
+/-- `Write` returns in one step in every state: enqueued, "write queue full", or errConnClosed; the queue stays within
+its capacity and no goroutine of the connection is touched -/
+theorem conn_sender_never_blocks (cfg : ConnThreads.Cfg) (s : ConnThreads.St) (stale : Bool) :
+    ∃ s', ConnThreads.step cfg s (.send stale) = some s' ∧
+      ((s'.wq = s.wq + 1 ∧ s.wq < cfg.wcap ∧ s'.accepted = s.accepted + 1 ∧ s'.rejected = s.rejected ∧ s'.refused = s.refused) ∨
+       (s'.wq = s.wq ∧ cfg.wcap ≤ s.wq ∧ s'.accepted = s.accepted ∧ s'.rejected = s.rejected + 1 ∧ s'.refused = s.refused) ∨
+       (s'.wq = s.wq ∧ s.closeSig = true ∧ s'.accepted = s.accepted ∧ s'.rejected = s.rejected ∧ s'.refused = s.refused + 1)) ∧
+      s'.r = s.r ∧ s'.w = s.w ∧ s'.d = s.d :=
+  ConnThreads.sender_never_blocks cfg s stale
+
+/-- nothing accumulates in the queues: both stay within their capacities, and every packet that entered packetCh is
+still queued or was handed to the handler -/
+theorem conn_queues_bounded (cfg : ConnThreads.Cfg) (acts : List ConnThreads.Act) (s : ConnThreads.St)
+    (h : ConnThreads.run cfg (ConnThreads.init cfg) acts = some s) :
+    s.pq ≤ cfg.pcap ∧ s.wq ≤ cfg.wcap ∧ s.enq = s.pq + s.delivered :=
+  have i := ConnThreads.inv_reach cfg acts s h
+  ⟨i.pqCap, i.wqCap, i.acct⟩
+
+/-! the four guards are necessary: remove one and a goroutine of a closed connection is stranded for ever (decided
+concrete schedules of the variant + an invariance argument over all continuations) -/
+
+/-- (a) `addPacket` waiting for room: the reader never leaves `addPacket` once the dispatcher has gone -/
+theorem conn_blocking_addPacket_strands_reader :
+    ∃ s, ConnThreads.runV .blockingAdd ConnThreads.cfgA (ConnThreads.init ConnThreads.cfgA) ConnThreads.demoA = some s ∧
+      s.closeSig = true ∧ s.sockClosed = true ∧ s.once = .done ∧ s.d = .exited ∧ s.r = .decode 1 false ∧
+      ∀ acts s', ConnThreads.runV .blockingAdd ConnThreads.cfgA s acts = some s' →
+        s'.r = .decode 1 false ∧ ∀ a, ConnThreads.isR a = true → ConnThreads.stepV .blockingAdd ConnThreads.cfgA s' a = none :=
+  ConnThreads.blocking_addPacket_strands_reader
+
+/-- (b) `Close` not closing the socket: the reader stays in `Read` as long as the peer is silent -/
+theorem conn_close_without_socket_strands_reader :
+    ∃ s, ConnThreads.runV .keepSocket ConnThreads.cfgT (ConnThreads.init ConnThreads.cfgT) ConnThreads.demoB = some s ∧
+      s.closeSig = true ∧ s.once = .done ∧ s.closeCallbacks = 1 ∧ s.r = .inRead ∧
+      ∀ acts s', (∀ a ∈ acts, ConnThreads.isPeer a = false) → ConnThreads.runV .keepSocket ConnThreads.cfgT s acts = some s' →
+        s'.r = .inRead ∧ ∀ a, ConnThreads.isR a = true → ConnThreads.stepV .keepSocket ConnThreads.cfgT s' a = none :=
+  ConnThreads.close_without_socket_strands_reader
+
+/-- (c) the WebSocket writer's select without the closeCh case: the writer stays at its select on the empty writeCh -/
+theorem conn_writer_without_close_case_strands :
+    ∃ s, ConnThreads.runV .noCloseCase ConnThreads.cfgW (ConnThreads.init ConnThreads.cfgW) (ConnThreads.xClose 0) = some s ∧
+      s.closeSig = true ∧ s.sockClosed = true ∧ s.once = .done ∧ s.w = .sel ∧
+      ∀ acts s', (∀ a ∈ acts, a ≠ .send true) → ConnThreads.runV .noCloseCase ConnThreads.cfgW s acts = some s' →
+        s'.w = .sel ∧ ∀ a, ConnThreads.isW a = true → ConnThreads.stepV .noCloseCase ConnThreads.cfgW s' a = none :=
+  ConnThreads.writer_without_close_case_strands
+
+/-- (d) the dispatcher's select without the closeCh case (the code before its C16 fix): the dispatcher stays at its
+select on the empty packetCh and the final error is never reported -/
+theorem conn_dispatcher_without_close_case_strands :
+    ∃ s, ConnThreads.runV .dNoCloseCase ConnThreads.cfgT (ConnThreads.init ConnThreads.cfgT) ConnThreads.demoD = some s ∧
+      s.closeSig = true ∧ s.sockClosed = true ∧ s.once = .done ∧ s.r = .exited ∧ s.d = .sel ∧
+      ∀ acts s', ConnThreads.runV .dNoCloseCase ConnThreads.cfgT s acts = some s' →
+        s'.d = .sel ∧ s'.finalReports = 0 ∧
+        ∀ a, ConnThreads.isD a = true → ConnThreads.stepV .dNoCloseCase ConnThreads.cfgT s' a = none :=
+  ConnThreads.dispatcher_without_close_case_strands
 
 end OAP.C16
